@@ -28,6 +28,7 @@ type Engine struct {
 	maxDepth        int
 	maxSteps        int
 	maxFan          int
+	maxDecisions    int
 	allow           map[string]bool
 	allowCache      sync.Map
 	loadTime        time.Duration
@@ -88,7 +89,7 @@ func harnessOverlay(verifDir string, symbolic bool) (map[string][]byte, []string
 }
 
 func NewEngine(verifDir string, patterns []string) (*Engine, error) {
-	e := &Engine{maxDepth: 400, maxSteps: 50_000_000, maxFan: 64, allow: map[string]bool{}, verifDir: verifDir}
+	e := &Engine{maxDepth: 400, maxSteps: 50_000_000, maxFan: 64, maxDecisions: 4000, allow: map[string]bool{}, verifDir: verifDir}
 	for _, p := range interpretedPkgs {
 		e.allow[p] = true
 	}
@@ -157,6 +158,17 @@ func (e *Engine) findFunc(pkgPath, name string) *ssa.Function {
 		return nil
 	}
 	return pk.Func(name)
+}
+
+// lookupMethod finds an exported method by name in the method set of t (nil if absent).
+func (e *Engine) lookupMethod(t types.Type, name string) *ssa.Function {
+	ms := e.prog.MethodSets.MethodSet(t)
+	for i := 0; i < ms.Len(); i++ {
+		if ms.At(i).Obj().Name() == name {
+			return e.prog.MethodValue(ms.At(i))
+		}
+	}
+	return nil
 }
 
 // namedType returns the named type pkg.Name.
